@@ -33,8 +33,9 @@ class TransformCase(Case):
 
     def __init__(self, cid, *, N=2, L=1, C=1, K=1, ptypes=("absolute", "absolute"), boundary=("truncate_both", "truncate_both"),
                  lkinds=("both",), nkinds=("both",), obj_scaler=True, con_scaler=True, offsets=True, reuse=False, fail=False,
-                 var_bounds="both"):
+                 var_bounds="both", scale_form="vector"):
         self.id = cid
+        self.scale_form = scale_form   # "size1": the scaler is given one scale that NumPy broadcasts over the variables
         self.N, self.L, self.C, self.K = N, L, C, K
         self.ptypes, self.boundary, self.lkinds, self.nkinds = tuple(ptypes), tuple(boundary), tuple(lkinds), tuple(nkinds)
         self.obj_scaler, self.con_scaler, self.offsets = obj_scaler, con_scaler and C > 0, offsets
@@ -49,7 +50,7 @@ class TransformCase(Case):
     def describe(self):
         return (f"N={self.N} linear={self.lkinds if self.L else ()} nonlinear={self.nkinds if self.C else ()} perturbations={self.ptypes} "
                 f"boundary={self.boundary} objective_scaler={self.obj_scaler} constraint_scaler={self.con_scaler} offsets={self.offsets} "
-                f"scaler_reused_after_another_config={self.reuse} evaluation_fails={self.fail} variable_bounds={self.var_bounds}")
+                f"scaler_reused_after_another_config={self.reuse} evaluation_fails={self.fail} variable_bounds={self.var_bounds} scales={self.scale_form}")
 
     def inputs(self, env):
         N, L, C, K = self.N, self.L, self.C, self.K
@@ -63,7 +64,14 @@ class TransformCase(Case):
             for j in range(N):
                 env.assume(ub[j] - lb[j] >= Fraction(1, 10))
                 env.assume(And(x[j] >= lb[j], x[j] <= ub[j]))
-        s = env.reals("s", N, lo=Fraction(1, 10), hi=10)
+        s_arg = None
+        if self.scale_form == "size1":
+            s_arg = env.reals("s", 1, lo=Fraction(1, 10), hi=10)
+            s = np.array([s_arg[0]] * N, dtype=object)
+        elif self.scale_form == "none":   # an offsets-only scaler
+            s = np.array([SR(Fraction(1))] * N, dtype=object)
+        else:
+            s = env.reals("s", N, lo=Fraction(1, 10), hi=10)
         o = env.reals("o", N, lo=-5, hi=5) if self.offsets else None
         m = env.reals("m", N, lo=Fraction(1, 100), hi=2)
         z = env.reals("z", (1, 1, N), lo=-5, hi=5)                     # the perturbation sample
@@ -83,7 +91,7 @@ class TransformCase(Case):
                 env.assume(Or(*[Not(A0[i, j] == 0) for j in range(N)]))
         if self.fail:
             f[0, 0] = SR(f[0, 0].v, True)     # the evaluation fails: no function values, bound/linear differences remain
-        return dict(lb=lb, ub=ub, x=x, s=s, o=o, m=m, z=z, A=A, A0=A0, llo=llo, lhi=lhi, nlo=nlo, nhi=nhi, os=os_, cs=cs, f=f, g=g)
+        return dict(s_arg=s_arg, lb=lb, ub=ub, x=x, s=s, o=o, m=m, z=z, A=A, A0=A0, llo=llo, lhi=lhi, nlo=nlo, nhi=nhi, os=os_, cs=cs, f=f, g=g)
 
     @staticmethod
     def bounds(env, name, kinds):
@@ -156,7 +164,7 @@ class TransformCase(Case):
 
     def run(self, env, inp):
         tr = ens.make_transforms(
-            var_scales=env.arr(inp["s"]), var_offsets=env.arr(inp["o"]) if self.offsets else None,
+            var_scales=None if self.scale_form == "none" else env.arr(inp["s"] if inp["s_arg"] is None else inp["s_arg"]), var_offsets=env.arr(inp["o"]) if self.offsets else None,
             obj_scales=env.arr(inp["os"]) if self.obj_scaler else None,
             con_scales=env.arr(inp["cs"]) if self.con_scaler else None)
         a = self.one_side(env, inp, None)
@@ -261,6 +269,8 @@ def build_cases(tier):
     add(N=2, L=1, C=0, lkinds=("both",), obj_scaler=False, reuse=True)                       # scaler object used for two configurations
     add(N=2, L=1, C=1, lkinds=("upper",), nkinds=("both",), fail=True)                         # a failed evaluation still reports bound/linear differences
     add(N=2, L=1, C=0, lkinds=("both",), var_bounds="none", obj_scaler=False)                  # linear constraints without any finite variable bound
+    add(N=2, L=1, C=0, lkinds=("both",), offsets=False, scale_form="size1", obj_scaler=False)  # one scale broadcast over the variables
+    add(N=2, L=1, C=0, lkinds=("both",), scale_form="none", obj_scaler=False)                    # offsets only
     if tier == "thorough":
         for lk in ("both", "lower", "upper", "eq"):
             add(N=2, L=1, C=1, lkinds=(lk,), nkinds=(lk,), ptypes=("relative", "absolute"), boundary=("mirror_both", "none"))
